@@ -186,7 +186,9 @@ def gen_cases(tier, rnd):
             for env, argv in [(None, ['prog']), ('1', ['prog'])]:
                 model_only.append(dict(env=env, argv=argv, ops=pre + [['overwrite_none', None]] + post, group='overwrite-none'))
     # 6. show(): all 16 on/off combinations x prefixes
-    prefixes = [None, 'p', 'my.prof', 'a_b'] if thorough else [None, 'a_b']
+    # prefixes whose last component contains dots (str concatenation vs Path.with_suffix), a directory with a dot
+    prefixes = [None, 'p', 'my.prof', 'a_b', 'bench.v2', 'run-1.5', 'out.d/profile', 'x.tar.gz', '.hidden'] if thorough \
+        else [None, 'bench.v2', 'out.d/run-1.5']
     show = [dict(wc=wc, prefix=p) for p in prefixes for wc in ALL_WC]
     # 7. whole interpreter runs
     sub = []
@@ -199,9 +201,10 @@ def gen_cases(tier, rnd):
     for pre, mid in [('enable', 'none'), ('enable', 'disable'), ('disable', 'none'), ('disable', 'enable'),
                      ('none', 'disable'), ('none', 'enable'), ('enable_prefix', 'none'), ('enable_prefix', 'disable')]:
         for env in ([None, '1', 'off'] if thorough else [None, '1']):
-            sub.append(dict(env=env, args=[], pre=pre, mid=mid, wc=rnd.choice(ALL_WC), prefix='pfx'))
+            sub.append(dict(env=env, args=[], pre=pre, mid=mid, wc=rnd.choice(ALL_WC), prefix=rnd.choice(['pfx', 'pfx.v2', 'a.b_c'])))
     for wc in ALL_WC:
         sub.append(dict(env='1', args=[], pre='none', mid='none', wc=wc, prefix=None))
+        sub.append(dict(env=None, args=[], pre='enable_prefix', mid='none', wc=wc, prefix='bench.v2'))
         if thorough:
             sub.append(dict(env=None, args=['--line-profile'], pre='enable_prefix', mid='none', wc=wc, prefix='o.x'))
             sub.append(dict(env='off', args=[], pre='none', mid='none', wc=wc, prefix=None))
